@@ -131,7 +131,7 @@ TabularDataFile& TabularDataFile::operator<<(const Var& x)
 	if (x == "\n" && _row.length() > 0)
 		rowFull = true;
 	else if (x.is(Var::ARRAY))
-		_row = x.array();
+		_row = x.array().clone(); // the row is cleared after writing: never share the caller's array
 	else
 		_row << x;
 	if (_row.length() == _columnNames.length() || rowFull)
